@@ -6,10 +6,10 @@ COMMON_TB = [
 
 PROPS = {
     "C01": dict(
-        claim="Lean 4 model of the CBE encoder and decoder (CE/Cbe). Theorem structural_document_roundtrip: for EVERY stream, of any length and nesting, made of containers, Booleans, null, padding, comments, integers of every width and sign in all three event forms, markers / references / records / record types with their identifiers, and UIDs, the encoder model fails nowhere, the decoder model reads the encoder's bytes back without error and to the end, and the events it delivers carry the same data (canon) - by induction over the stream, each step a prefix-code lemma (one decoder step reads back exactly this event and leaves the following bytes untouched: decodeOne_simple); per-event prefix-code round trips with arbitrary suffix for every integer width, ULEB128 and little-endian fields. "
+        claim="Lean 4 model of the CBE encoder and decoder (CE/Cbe). Theorem structural_document_roundtrip: for EVERY stream, of any length and nesting, made of containers, Booleans, null, padding, comments, integers of every width and sign in all three event forms, markers / references / records / record types with their identifiers, UIDs, and strings and resource identifiers of any length (short form and chunk-header form), the encoder model fails nowhere, the decoder model reads the encoder's bytes back without error and to the end, and the events it delivers carry the same data (canon) - by induction over the stream, each step a prefix-code lemma (one decoder step reads back exactly this event and leaves the following bytes untouched: decodeOne_simple); per-event prefix-code round trips with arbitrary suffix for every integer width, ULEB128 and little-endian fields. "
               "Correspondence of model and implementation (encoder bytes, decoder events) "
               "on generated rules-valid streams; the property oracle canon(decoded)=canon(original) is evaluated by the Lean driver on the implementation's own output",
-        note="partial: the stream-level theorem covers the structural fragment; floats, decimals, numbers beyond 64 bits, arrays (the encoder's array state) and times are covered by correspondence + oracle only. "
+        note="partial: the stream-level theorem covers the structural fragment; floats, decimals, numbers beyond 64 bits, typed and chunked arrays (the encoder's array state) and times are covered by correspondence + oracle only. "
              "Trusted: Lean kernel; hand-written model tied by the correspondence harness; go-compact-time not modelled (time events: oracle on the implementation only)",
         level="proof", n_quick=6000, n_thorough=200000, shards=16,
         lean_modules=["CE.Props.C01", "CE.Cbe.StreamRoundTrip"],
